@@ -171,7 +171,7 @@ def make_harness(params: Dict[str, Any]):
 def shards(tier: str) -> List[Dict[str, Any]]:
     out = []
     for model in c08.MODELS:
-        if model.startswith(("may-reject:", "verification-only:")) or not c08.MODELS[model].exists():
+        if model.startswith(c08.NOT_FOR_SERIALIZATION) or not c08.MODELS[model].exists():
             continue
         for kind, name, focus in c08._targets(model):
             if kind != "class":
